@@ -99,6 +99,15 @@ class C04(Prop):
                 g.step()
             for be in storelib.BACKENDS:
                 out.append(("malformed-history", {"backend": be, "ops": g.ops}))
+        # a bulk insert with more than a hundred id-carrying events (upserts), one of which carries the id of another bucket's event
+        for n in (101, 150) if ctx.quick else (100, 101, 150, 501):
+            evs = [[None, storegen.T0 + k * 1000, 1000, storegen.LABELS[k % 2]] for k in range(n)]
+            ups = [[["ref", k + 1]] + storegen.rand_ev(rng)[1:] for k in range(n)]
+            ups.insert(rng.randrange(n), [["ref", 0]] + storegen.rand_ev(rng)[1:])
+            ops = [["create", "b1", storegen.mk_meta(rng, "b1")], ["create", "b0", storegen.mk_meta(rng, "b0")],
+                   ["insert", "b1", storegen.rand_ev(rng)], ["bulk", "b0", evs], ["bulk", "b0", ups], ["get", "b1", -1, None, None]]
+            for be in storelib.BACKENDS:
+                out.append(("big-upsert", {"backend": be, "ops": ops}))
         # the same kind of histories on the lazily committing sqlite store observed WITHOUT committing (raw SELECTs on
         # the store's own connection): a write that is only buffered must survive a rejected operation on another bucket
         for i in range(ctx.pick(60, 800)):
